@@ -21,7 +21,10 @@
 //     its patches change the document only inside the window and only if they all apply.
 package refmodel
 
-import "sort"
+import (
+	"math/big"
+	"sort"
+)
 
 // Delta classes.
 const (
@@ -96,16 +99,17 @@ func (p Params) deltaFor(o *Op) uint64 {
 	return p.MaxTimeDelta
 }
 
-// InWindow is the signed anchoring window predicate.
+// InWindow is the signed anchoring window predicate, evaluated in unbounded integers (the bounds are signed 64-bit
+// values, the anchoring time and the maximum operation time delta unsigned ones; nothing wraps around here).
 func InWindow(from, until int64, t uint64, maxDelta uint64) bool {
 	if from == 0 && until == 0 {
 		return true
 	}
-	eff := until
+	f, e, at := big.NewInt(from), big.NewInt(until), new(big.Int).SetUint64(t)
 	if until == 0 {
-		eff = from + int64(maxDelta)
+		e = new(big.Int).Add(f, new(big.Int).SetUint64(maxDelta))
 	}
-	return from <= int64(t) && int64(t) <= eff
+	return f.Cmp(at) <= 0 && at.Cmp(e) <= 0
 }
 
 // Less orders by (time, number).
